@@ -55,10 +55,12 @@ def defuse_xml(fp: IOType, rewind: bool = True) -> IOType:
     """
     if rewind and not fp.seekable():
         if isinstance(fp, io.RawIOBase):
-            # Wrap a not seekable raw IO object in a BufferedReader
+            # Wrap a not seekable raw IO object in a BufferedReader, that
+            # anyway can't be rewound if the raw stream is not seekable.
             fp = io.BufferedReader(fp)
-        elif isinstance(fp, io.BufferedIOBase):
-            # Other not seekable BufferedIOBase resources are wrapped in
+
+        if isinstance(fp, io.BufferedIOBase):
+            # Not seekable BufferedIOBase resources are wrapped in
             # a custom reader with an initial buffer of 64KiB bytes.
             try:
                 fp = DefusableReader(fp)
